@@ -158,15 +158,15 @@ def _run(check, ctx, rep, replay):
             base = [l for l in (check.corr_lines(ctx) if not replay else []) if l.endswith(' E')]
             probe = sample(base, 30000 if ctx.tier == 'quick' else 200000, ctx.rng)
             if probe:
-                a1, a2, a3 = ctx.run_c_twice(probe)
+                a1, a2, a3, a4 = ctx.run_c_twice(probe)
                 nrep = 0
-                for l, x, y, z in zip(probe, a1, a2, a3):
-                    if x != y or x != z:
+                for l, x, y, z, w in zip(probe, a1, a2, a3, a4):
+                    if x != y or x != z or x != w:
                         nrep += 1
                         if nrep <= 20:
-                            viols.append(dict(key=l + ' ; ' + l, got='first call: %s | same call again in the same process: %s | after the reversed sequence: %s' % (x, y, z),
+                            viols.append(dict(key=l + ' ; ' + l, got='first call: %s | same call again in the same process: %s | in the argument-reversed order: %s | in a shuffled order: %s' % (x, y, z, w),
                                               expected='the same result every time', what='the result of a call depends on the calls made before it'))
-                n_search += 2 * len(probe); stats['repeat_probe'] = dict(calls=len(probe), history_dependent=nrep)
+                n_search += 3 * len(probe); stats['repeat_probe'] = dict(calls=len(probe), history_dependent=nrep)
         except core.BuildError:
             pass
         ctx.tick('repeat_probe', t)
